@@ -75,7 +75,7 @@ Record well_formed (c : vcfg) : Prop := {
   wf_sections : vc_general c = true /\ vc_instructions c = true /\ vc_operand_sets c = true;
   wf_mnemonics : Forall (not_keyword_ci (vc_keywords c)) (vc_mnemonics c);
   wf_macros_kw : Forall (not_keyword_ci (vc_keywords c)) (vc_macros c);
-  wf_registers : Forall (fun r => mem r (vc_keywords c) = false) (vc_registers c);
+  wf_registers : Forall (not_keyword_ci (vc_keywords c)) (vc_registers c);
   wf_macros_distinct : Forall (fun m => mem (map lower m) (map (map lower) (vc_mnemonics c)) = false) (vc_macros c);
   wf_variants : Forall (variant_wf (vc_set_names c)) (vc_variants c);
   wf_reg_operands : Forall (fun r => mem r (vc_registers c) = true) (vc_reg_operands c);
